@@ -40,7 +40,9 @@ var loopKinds = []string{"for3", "forcond", "forinf", "range", "rangekey"}
 var branchKinds = []string{"if", "ifelse", "ifelseif", "swtag:last", "swtag:first", "swtag:mid", "swtag:none", "sw:last", "sw:first", "sw:mid", "sw:none",
 	// case expressions that the peephole optimizer rewrites (local+local, local+constant): jump distances over a case
 	// must be those of the rewritten code
-	"swtagx:last", "swtagx:mid", "swtagx:none", "swx:last", "swx:first", "swx:none"}
+	"swtagx:last", "swtagx:mid", "swtagx:none", "swx:last", "swx:first", "swx:none",
+	// clauses with an EMPTY body (Go: nothing runs, no fall-through into the next clause or the default)
+	"swtage:last", "swtage:mid", "swe:last", "swe:none"}
 
 // emitConstruct writes construct kind with `slots` bodies (the i-th branch/loop body is produced by body(i)).
 func (s *skel) emitConstruct(kind string, sel int, inLoop, inSwitch bool, body func(i int, inLoop, inSwitch bool)) {
@@ -134,6 +136,17 @@ func (s *skel) emitConstruct(kind string, sel int, inLoop, inSwitch bool, body f
 			s.line("switch s%d {", sel)
 		} else {
 			s.line("switch {")
+		}
+		emptyFirst := strings.HasPrefix(kind, "swtage:") || strings.HasPrefix(kind, "swe:")
+		if emptyFirst {
+			// an extra leading clause with a case list and no statements at all
+			if tagged {
+				s.line("case 5, 6:")
+				s.line("case 7:")
+			} else {
+				s.line("case s%d == 5, s%d == 1:", sel, sel)
+				s.line("case s%d == 7:", sel)
+			}
 		}
 		emitCase := func(i int) {
 			switch {
@@ -341,7 +354,9 @@ func genC06(tier string, seed int64) []*Prog {
 		seen := map[string]bool{}
 		var keep []skelSpec
 		rng.Shuffle(len(specs), func(i, j int) { specs[i], specs[j] = specs[j], specs[i] })
-		isX := func(k string) bool { return strings.HasPrefix(k, "swtagx:") || strings.HasPrefix(k, "swx:") }
+		isX := func(k string) bool {
+			return strings.HasPrefix(k, "swtagx:") || strings.HasPrefix(k, "swx:") || strings.HasPrefix(k, "swtage:") || strings.HasPrefix(k, "swe:")
+		}
 		partner := map[string]bool{"for3": true, "forinf": true, "range": true, "ifelse": true, "swtag:mid": true, "sw:last": true}
 		for _, sp := range specs {
 			if len(sp.kinds) == 2 {
@@ -383,7 +398,7 @@ func checkC06(tier string, seed int64) int {
 	agg, st := NewAgg(), &eqStats{}
 	c.runEquiv(progs, "z3", agg, st)
 	agg.Into(c, "")
-	c.Cov("rule", "control skeletons: nestings (depth 1–2 over all 22 construct kinds (incl. switches whose case expressions are case lists / arithmetic the optimizer rewrites) × continuation branch × {none, break, continue, return, conditional break/continue}; depth 3 seeded sample) of for(3-clause, cond-only, infinite), range(value, key), switch(tagged/tagless × default first/middle/last/absent), if/else-if/else, with a trace print before and after every construct; selectors s0..s3 and loop bound n (assumed ≤ 2) symbolic; quick keeps one skeleton per (kinds, jump) plus every default-clause placement")
+	c.Cov("rule", "control skeletons: nestings (depth 1–2 over all 26 construct kinds (incl. switches whose case expressions are case lists / arithmetic the optimizer rewrites, and switches with empty clauses) × continuation branch × {none, break, continue, return, conditional break/continue}; depth 3 seeded sample) of for(3-clause, cond-only, infinite), range(value, key), switch(tagged/tagless × default first/middle/last/absent), if/else-if/else, with a trace print before and after every construct; selectors s0..s3 and loop bound n (assumed ≤ 2) symbolic; quick keeps one skeleton per (kinds, jump) plus every default-clause placement")
 	c.Cov("paths_compared", st.compared)
 	c.Assumption("loop bound n ≤ 2 (unwinding: engine step bound 6e6 per path, exceeding it is reported as unwind, never as success)")
 	c.Assumption("trace = fmt.Println of distinct constants; the compared observable is the exact output text and the returned value")
